@@ -105,10 +105,19 @@ def run_bounded(prop, tier, seed, functions=None):
     cmd = [RT_PY, str(rt), "bounded", prop, "--tier", tier, "--seed", str(seed), "--out", str(out)]
     if functions:
         cmd += ["--functions", ",".join(functions)]
+    log = VERIF / "work" / f"{prop}_bounded.log"
     try:
-        r = subprocess.run(cmd, capture_output=True, text=True, timeout=3000, cwd=str(VERIF))
+        # output goes to a file, not a pipe: worker processes that outlive the runtime layer must not block us
+        with open(log, "w") as lf:
+            rc = subprocess.run(cmd, stdout=lf, stderr=subprocess.STDOUT, timeout=3000, cwd=str(VERIF)).returncode
     except subprocess.TimeoutExpired:
         return {"error": "bounded stand-in timed out", "standins": []}
+
+    class R:
+        returncode = rc
+        stdout = open(log).read()[-4000:]
+        stderr = ""
+    r = R
     if not out.exists():
         return {"error": f"runtime layer exited with {r.returncode} and wrote nothing:\n" + (r.stdout + r.stderr)[-2000:],
                 "standins": []}
